@@ -14,6 +14,8 @@
 package io
 
 import (
+	"errors"
+	"strconv"
 	"time"
 
 	"github.com/modern-go/reflect2"
@@ -81,6 +83,12 @@ func (enc *Encoder) writeTime(t time.Time) {
 		t = t.Local()
 	}
 	year, month, day := t.Date()
+	if year < 0 || year > 9999 {
+		// the date form has four year digits
+		enc.Error = errors.New("hprose/io: year " + strconv.Itoa(year) + " is out of range [0, 9999]")
+		enc.buf = append(enc.buf, TagNull)
+		return
+	}
 	hour, min, sec := t.Clock()
 	nsec := t.Nanosecond()
 	if (hour == 0) && (min == 0) && (sec == 0) && (nsec == 0) {
